@@ -461,6 +461,7 @@ class State:
     st.events = list(self.events)
     st.broke = self.broke
     st.cont = self.cont
+    st.zipsrc = dict(getattr(self, "zipsrc", {}))
 
     def cp(v):
       if isinstance(v, DictObj):
@@ -753,8 +754,39 @@ class Interp:
       if n in st.env:
         st.env[n] = sp.Symbol(f'{n}@{s.lineno}{tag}', real=True)
 
+  def _bind_zip(self, target, call, st, s):
+    """for a, b in zip(xs, map(f, xs)): a is the generic element of xs, b is f(a).  Records which iterable each target
+    element walks (st.zipsrc) so that rules can ask for 'the element of <parameter>'."""
+    tag = f'@{s.lineno}'
+    srcs = {}
+    st.zipsrc = dict(getattr(st, 'zipsrc', {}))
+    pending = []
+    for arg, t in zip(call.args, target.elts):
+      if isinstance(arg, ast.Call) and isinstance(arg.func, ast.Name) and arg.func.id == 'map' and len(arg.args) == 2 and not arg.keywords:
+        pending.append((arg, t))
+        continue
+      nm = f'{t.id}{tag}'
+      v = sp.Symbol(nm, **self.typed.get(nm, dict(real=True)))
+      st.env[t.id] = v
+      srcs[ast.dump(arg)] = v
+      st.zipsrc[t.id] = arg
+    for arg, t in pending:
+      f = self.ev(arg.args[0], st)
+      key = ast.dump(arg.args[1])
+      elem = srcs.get(key)
+      if elem is None:
+        elem = sp.Symbol(f'item_{t.id}{tag}', real=True)
+      if isinstance(f, FuncObj):
+        outs = self.inline(f, [elem], {}, st, arg)
+        st.env[t.id] = outs
+      else:
+        st.env[t.id] = opq(sp.Symbol('call:' + str(as_sym(f))), as_sym(elem))
+
   def _bind_target(self, target, it, st, s):
     tag = f'@{s.lineno}'
+    if isinstance(target, (ast.Tuple, ast.List)) and isinstance(s.iter, ast.Call) and isinstance(s.iter.func, ast.Name) and s.iter.func.id == 'zip' and \
+        not s.iter.keywords and len(s.iter.args) == len(target.elts) and all(isinstance(t, ast.Name) for t in target.elts):
+      return self._bind_zip(target, s.iter, st, s)
     if isinstance(target, ast.Name):
       nm = f'{target.id}{tag}'
       st.env[target.id] = sp.Symbol(nm, **self.typed.get(nm, dict(real=True)))
